@@ -189,10 +189,11 @@ def run(ctx):
         replay_cases(ctx, cases2, 'MaxN=2 (all behaviours)')
     # 3. code -> spec: trace validation of real executions
     trace_exec.validate_corpus(ctx, quick=quick)
+    trace_exec.validate_corpus_mutants(ctx, 1500 if quick else 30000)
     ctx.cov['exhaustive'] = True
     ctx.cov['rule'] = ('every behaviour of PhaseExec.tla for MaxN=%s (TLC, exhaustive) replayed with scripted stubs; '
                        'non-trivial = distinct (shape, status, mode, fault script) with at least one non-ok step; '
-                       'plus hook traces of real test cases validated by PhaseExecTrace.tla'
+                       'plus hook traces of real test cases - the corpus and seeded random mutants of it - validated by PhaseExecTrace.tla'
                        % ('1' if quick else '1 and 2'))
     ctx.assumptions += ['stub instructions observe the executor through the public base-class methods only',
                         'TLC results hold for the stated MaxN',
